@@ -47,11 +47,19 @@ Theorem C37_endpoint_creation_with_inconsistent_qos_is_refused :
     is_consistent (ekind_of sd) q = false ->
     lookup_topic sd p name <> None -> find_first (is_group gh) (groups sd p) <> None ->
     let r := create_endpoint pr sd p gh name (Some q) in
-    (snd r = RErr E_INCONSISTENT \/ snd r = RPanic) /\
+    (snd r = RErr E_INCONSISTENT \/ (sd = SPub /\ 65535 <= ecounter sd p /\ snd r = RErr E_OUT_OF_RESOURCES)) /\
     pa_pubs (fst r) = pa_pubs p /\ pa_subs (fst r) = pa_subs p /\ pa_topics (fst r) = pa_topics p.
 Proof. exact create_endpoint_inconsistent. Qed.
 
 (* --- Topic --- *)
+(* since 3e9f0b1: create_topic with an inconsistent QoS is refused (an existing name is refused first) *)
+Theorem C37_topic_creation_with_inconsistent_qos_is_refused :
+  forall pr f ph name q p,
+    find_part f ph = Some p -> is_consistent KTopic q = false ->
+    fstep pr f (FCreateTopic ph name (Some q)) = (f, RErr E_INCONSISTENT) \/
+    fstep pr f (FCreateTopic ph name (Some q)) = (f, RErr E_PRECONDITION).
+Proof. exact create_topic_inconsistent. Qed.
+
 Theorem C37_topic_inconsistent_set_rejected_unchanged :
   forall pr f ph name p t q,
     find_part f ph = Some p -> find_first (is_topic name) (pa_topics p) = Some t ->
@@ -76,22 +84,19 @@ Theorem C37_topic_accepted_qos_is_returned :
                fstep pr f' (FGetTopicQos ph name) = (f', REQ q).
 Proof. intros; eapply topic_set_accepted; eauto. Qed.
 
-(* --- Subscriber (presentation is immutable once enabled), Publisher, Participant --- *)
-Theorem C37_subscriber_presentation_change_rejected_when_enabled :
-  forall pr f ph gh p g q,
-    find_part f ph = Some p -> find_first (is_group gh) (pa_subs p) = Some g ->
-    g_en g = true -> presentation_eqb (g_q g) q = false ->
-    fstep pr f (FSetGroupQos SSub ph gh (Some q)) = (f, RErr E_IMMUTABLE) /\
-    fstep pr f (FGetGroupQos SSub ph gh) = (f, RGQ (g_q g)).
-Proof.
-  intros; split; [eapply subscriber_set_immutable; eauto|].
-  apply (group_get pr f SSub ph gh p g); auto.
-Qed.
-
-Theorem C37_group_accepted_qos_is_returned :
+(* --- Publisher (since 5256dfd) and Subscriber: presentation is immutable once enabled; Participant --- *)
+Theorem C37_publisher_subscriber_presentation_change_rejected_when_enabled :
   forall pr f sd ph gh p g q,
     find_part f ph = Some p -> find_first (is_group gh) (groups sd p) = Some g ->
-    (sd = SPub \/ g_en g = false \/ presentation_eqb (g_q g) q = true) ->
+    g_en g = true -> presentation_eqb (g_q g) q = false ->
+    fstep pr f (FSetGroupQos sd ph gh (Some q)) = (f, RErr E_IMMUTABLE) /\
+    fstep pr f (FGetGroupQos sd ph gh) = (f, RGQ (g_q g)).
+Proof. intros; split; [eapply group_set_immutable|eapply group_get]; eauto. Qed.
+
+Theorem C37_publisher_subscriber_accepted_qos_is_returned :
+  forall pr f sd ph gh p g q,
+    find_part f ph = Some p -> find_first (is_group gh) (groups sd p) = Some g ->
+    (g_en g = false \/ presentation_eqb (g_q g) q = true) ->
     exists f', fstep pr f (FSetGroupQos sd ph gh (Some q)) = (f', RUnit) /\
                fstep pr f' (FGetGroupQos sd ph gh) = (f', RGQ q).
 Proof. intros; eapply group_set_accepted; eauto. Qed.
@@ -114,27 +119,16 @@ Theorem C37_check_immutability_is_the_specified_rule :
   forall a b, check_immutability a b = spec_imm_same a b.
 Proof. exact check_immutability_spec. Qed.
 
-(* --- the two places where the property is false (known findings) --- *)
-(* C37-publisher-presentation-mutable: set_publisher_qos has no immutability check *)
-Theorem C37_publisher_presentation_changes_while_enabled :
-  let g8 := mkH 0 0 0 0 8 in
-  let q := mkGQ 1 true false 0 0 true in
-  let r := frun Debug init_factory
-             [FCreatePart None; FCreateGroup SPub (part_handle 0) None;
-              FSetGroupQos SPub (part_handle 0) g8 (Some q); FGetGroupQos SPub (part_handle 0) g8] in
-  snd r = [RHandle (part_handle 0); RHandle g8; RUnit; RGQ q] /\
-  (exists p g, find_part (fst r) (part_handle 0) = Some p /\
-               find_first (is_group g8) (pa_pubs p) = Some g /\ g_en g = true) /\
-  presentation_eqb default_gqos q = false.
-Proof. exact publisher_presentation_changes_while_enabled. Qed.
-
-(* C37-topic-create-inconsistent: create_topic never calls is_consistent *)
-Theorem C37_create_topic_accepts_inconsistent_qos :
-  let q := mkEQ 0 None (Some 0) 0 None 0 (Some 100000000) 0 (Some 5) None None (Some 3) 0 None 0 0 0 (Some 0) 0 true None in
-  is_consistent KTopic q = false /\
-  snd (frun Debug init_factory [FCreatePart None; FCreateTopic (part_handle 0) 1 (Some q); FGetTopicQos (part_handle 0) 1]) =
-  [RHandle (part_handle 0); RHandle (mkH 0 0 0 0 10); REQ q].
-Proof. exact topic_create_accepts_inconsistent. Qed.
+(* --- regression of the former findings C37-topic-create-inconsistent and C37-publisher-presentation-mutable --- *)
+Theorem C37_fixed_defects_regression :
+  forall pr,
+    let P0 := part_handle 0 in let g8 := mkH 0 0 0 0 8 in
+    let qbad := mkEQ 0 None (Some 0) 0 None 0 (Some 100000000) 0 (Some 5) None None (Some 3) 0 None 0 0 0 (Some 0) 0 true None in
+    snd (frun pr init_factory [FCreatePart None; FCreateTopic P0 1 (Some qbad); FGetTopicQos P0 1;
+                               FCreateGroup SPub P0 None; FSetGroupQos SPub P0 g8 (Some (mkGQ 1 true false 0 0 true));
+                               FGetGroupQos SPub P0 g8]) =
+    [RHandle P0; RErr E_INCONSISTENT; RErr E_DELETED; RHandle g8; RErr E_IMMUTABLE; RGQ default_gqos].
+Proof. exact fixed_defects_regression. Qed.
 
 (* non-vacuity: a reachable state with an enabled writer; changing HISTORY is refused, changing DEADLINE accepted *)
 Example C37_nonvacuous :
@@ -155,10 +149,10 @@ Print Assumptions C37_endpoint_creation_with_inconsistent_qos_is_refused.
 Print Assumptions C37_topic_inconsistent_set_rejected_unchanged.
 Print Assumptions C37_topic_immutable_change_rejected_when_enabled.
 Print Assumptions C37_topic_accepted_qos_is_returned.
-Print Assumptions C37_subscriber_presentation_change_rejected_when_enabled.
-Print Assumptions C37_group_accepted_qos_is_returned.
+Print Assumptions C37_topic_creation_with_inconsistent_qos_is_refused.
+Print Assumptions C37_publisher_subscriber_presentation_change_rejected_when_enabled.
+Print Assumptions C37_publisher_subscriber_accepted_qos_is_returned.
 Print Assumptions C37_participant_accepted_qos_is_returned.
 Print Assumptions C37_is_consistent_is_the_specified_rule.
 Print Assumptions C37_check_immutability_is_the_specified_rule.
-Print Assumptions C37_publisher_presentation_changes_while_enabled.
-Print Assumptions C37_create_topic_accepts_inconsistent_qos.
+Print Assumptions C37_fixed_defects_regression.
